@@ -374,11 +374,28 @@ func (tx *tableEx) term(v ssa.Value, row *PathRow, depth int) *Term {
 		// relation between two non-constant integer values: a relational atom
 		if (x.Op == token.LSS || x.Op == token.GTR || x.Op == token.LEQ || x.Op == token.GEQ || x.Op == token.EQL || x.Op == token.NEQ) &&
 			l.Kind == "opaque" && r.Kind == "opaque" {
-			if _, ok := x.X.(*ssa.Parameter); ok {
-				if _, ok := x.Y.(*ssa.Parameter); ok {
-					key := "rel(" + x.X.Name() + "," + x.Y.Name() + ")"
+			if px, ok := x.X.(*ssa.Parameter); ok {
+				if py, ok := x.Y.(*ssa.Parameter); ok {
+					// canonical orientation: the atom is the sign of (earlier
+					// parameter − later parameter), whichever way round the
+					// comparison is written
+					op := x.Op
+					if paramIndex(px) > paramIndex(py) {
+						px, py = py, px
+						switch op {
+						case token.LSS:
+							op = token.GTR
+						case token.GTR:
+							op = token.LSS
+						case token.LEQ:
+							op = token.GEQ
+						case token.GEQ:
+							op = token.LEQ
+						}
+					}
+					key := "rel(" + px.Name() + "," + py.Name() + ")"
 					a := tx.atom(key, x, "rel", []int64{-1, 0, 1})
-					return &Term{Kind: "op", Op: x.Op, Sub: []*Term{a, {Kind: "const", K: 0}}}
+					return &Term{Kind: "op", Op: op, Sub: []*Term{a, {Kind: "const", K: 0}}}
 				}
 			}
 		}
